@@ -1,6 +1,7 @@
 """C12 — call arguments are bound faithfully or refused, never silently ignored (engine A, binder)."""
 import copy
 import json
+import itertools
 import random
 
 from lxml import etree
@@ -615,12 +616,84 @@ def hand_cases(ctx, res):
                     res.failures.append(dict(what="%d item elements emitted, %d supplied (%s)" % (n_items, want, what), case=case))
 
 
+FAM2_XSD = ('<xs:schema xmlns:xs="http://www.w3.org/2001/XMLSchema" xmlns:t="urn:fam" targetNamespace="urn:fam" elementFormDefault="qualified">'
+            '<xs:element name="pay3"><xs:complexType><xs:sequence><xs:element name="amount" type="xs:int"/><xs:choice>%s</xs:choice></xs:sequence></xs:complexType></xs:element>'
+            '<xs:element name="pay4"><xs:complexType><xs:sequence><xs:element name="amount" type="xs:int"/><xs:choice>%s</xs:choice><xs:element name="memo" type="xs:string" minOccurs="0"/></xs:sequence></xs:complexType></xs:element>'
+            '<xs:element name="order"><xs:complexType><xs:sequence><xs:element name="id" type="xs:string"/><xs:sequence minOccurs="0"><xs:element name="street" type="xs:string"/>'
+            '<xs:element name="zip" type="xs:string" minOccurs="0"/><xs:element name="country" type="xs:string" minOccurs="0"/></xs:sequence>'
+            '<xs:element name="note" type="xs:string" minOccurs="0"/></xs:sequence></xs:complexType></xs:element>'
+            '<xs:element name="order2"><xs:complexType><xs:sequence><xs:element name="id" type="xs:string"/><xs:sequence minOccurs="0"><xs:element name="street" type="xs:string"/>'
+            '<xs:element name="city" type="xs:string"/><xs:element name="zip" type="xs:string" minOccurs="0"/></xs:sequence></xs:sequence></xs:complexType></xs:element>'
+            + "".join('<xs:element name="w_%s"><xs:complexType><xs:sequence><xs:element ref="t:%s"/></xs:sequence></xs:complexType></xs:element>' % (n, n)
+                      for n in ("pay3", "pay4", "order", "order2")) +
+            '</xs:schema>')
+BRANCHES = ["card", "iban", "voucher", "cash"]
+
+
+def hand_cases2(ctx, res):
+    """every assignment of {not mentioned, explicit None, a value} to the branches of a 3- and a 4-branch choice (two values must be
+    refused however the other branches are spelt; what serialize_object() of a value object produces mentions every branch); every
+    subset of the members of an optional nested sequence with required members (an optional member without the required one must be refused)"""
+    import zeep.xsd
+    br = lambda k: "".join('<xs:element name="%s" type="xs:string"/>' % b for b in BRANCHES[:k])   # noqa
+    zs = zeep.xsd.Schema(etree.fromstring((FAM2_XSD % (br(3), br(4))).encode()))
+    calls = []
+    for name, k in (("pay3", 3), ("pay4", 4)):
+        for combo in itertools.product(("absent", "none", "val"), repeat=k):
+            for conv in ("kw", "dict"):
+                kw = {"amount": 5}
+                for b, c in zip(BRANCHES, combo):
+                    if c == "none":
+                        kw[b] = None
+                    elif c == "val":
+                        kw[b] = b.upper()
+                nval = combo.count("val")
+                calls.append((name, conv, kw, "refuse" if nval >= 2 else ("ok" if nval == 1 else "either"), "choice branches " + "/".join(combo)))
+    for present in itertools.product((0, 1), repeat=3):
+        kw = {"id": "7"}
+        kw.update({n: n.upper() for n, c in zip(("street", "zip", "country"), present) if c})
+        expect = "ok" if present[0] else ("refuse" if any(present[1:]) else "either")
+        for conv in ("kw", "dict"):
+            calls.append(("order", conv, kw, expect, "optional nested sequence members " + repr(present)))
+    for present in itertools.product((0, 1), repeat=3):
+        kw = {"id": "7"}
+        kw.update({n: n.upper() for n, c in zip(("street", "city", "zip"), present) if c})
+        expect = "ok" if present[0] and present[1] else ("refuse" if any(present) else "either")
+        for conv in ("kw", "dict"):
+            calls.append(("order2", conv, kw, expect, "optional nested sequence (two required members) " + repr(present)))
+    for name, conv, kw, expect, what in calls:
+        res.case(key=("hand2", name, conv, repr(kw)), nontrivial=True)
+        res.count("hand-written:" + ("choice-branches" if name.startswith("pay") else "optional-nested-sequence"))
+        case = dict(kind="hand2", element=name, convention=conv, kwargs=repr(kw), what=what)
+        e = zs.get_element("{urn:fam}" + (name if conv == "kw" else "w_" + name))
+        try:
+            parent = etree.Element("p")
+            if conv == "kw":
+                e.render(parent, e(**kw))
+            else:
+                # a plain dictionary where the wrapping signature expects the complex value
+                e.render(parent, e(**{name: dict(kw)}))
+            out = "ok"
+            emitted = etree.tostring(parent[0]).decode()
+        except Exception as ex:  # noqa
+            out, emitted = type(ex).__name__, str(ex)[:100]
+        if expect == "ok" and out != "ok":
+            res.failures.append(dict(what="a conforming call is refused (%s): %s %s" % (what, out, emitted), case=case))
+        elif expect == "refuse" and out == "ok":
+            res.failures.append(dict(what="corrupted call accepted (%s): XML built without an error: %s" % (what, emitted[:300]), case=case))
+        elif out == "ok":
+            lost = [k for k, v in kw.items() if v is not None and ">%s<" % v not in emitted]
+            if lost:
+                res.failures.append(dict(what="supplied argument(s) %s silently left out of the XML (%s): %s" % (lost, what, emitted[:300]), case=case))
+
+
 def run(ctx):
     import logging
     logging.getLogger("zeep").setLevel(logging.CRITICAL)
     res = Result()
     pending = []
     hand_cases(ctx, res)
+    hand_cases2(ctx, res)
     n = ctx.n(120, 2000)
     for i in range(n):
         seed = ctx.seed * 100000 + i
@@ -645,6 +718,12 @@ def search(ctx):
 
 
 def replay(ctx, payload):
+    if payload.get("case", payload).get("kind") == "hand2":
+        r = Result()
+        hand_cases2(ctx, r)
+        c = payload.get("case", payload)
+        bad = [f for f in r.failures if f["case"]["element"] == c["element"] and f["case"]["convention"] == c["convention"] and f["case"]["kwargs"] == c["kwargs"]]
+        return (not bad), "hand-written case rerun: %s" % (bad[0]["what"] if bad else "holds")
     if payload.get("case", payload).get("kind") == "hand":
         r = Result()
         hand_cases(ctx, r)
